@@ -39,7 +39,7 @@ Definition is_some {A} (o : option A) : bool := match o with Some _ => true | No
 
 Definition cobserve_all (s : cstate) : list cobs :=
   let n := length (fs s) in
-  let rows := canon_rows [] (map (fun i => owned s i) (seq 0 n)) in
+  let rows := canon_rows [] (map (fun i => if is_junk (fs s) i then [] else owned s i) (seq 0 n)) in
   map (fun i =>
          let o := cget s i in
          let fo := get (fs s) i in
